@@ -11,4 +11,4 @@ for wt in /tmp/wt/${P}_C*; do
     [ -n "$(ls -d /verif/seeded/$id-*-$P$(echo $x | tr AB ab) 2>/dev/null)" ] && continue
     echo "$wt/change_$x.diff $wt/demo_$x.py $slug"
   done
-done | xargs -P 4 -L 1 /verif/tools/seed_confirm2.sh 2>&1 | grep -E "CONFIRMED|does not apply"
+done | xargs -P 2 -L 1 /verif/tools/seed_confirm2.sh 2>&1 | grep -E "CONFIRMED|does not apply"
